@@ -5,6 +5,7 @@ def dispatch (toks : List String) : String :=
   match toks with
   | "C06" :: rest => Poor.Drv.Range.handle rest
   | "C07" :: rest => Poor.Drv.Range.handle rest
+  | "C09" :: rest => Poor.Drv.Reader.handle rest
   | _ => "bad-op"
 
 partial def loop (h : IO.FS.Stream) (out : IO.FS.Stream) : IO Unit := do
